@@ -4,6 +4,10 @@ import json, os
 HERE = os.path.dirname(os.path.dirname(os.path.abspath(__file__)))
 
 CLAIMED = {
+ 'C07': ('symbolic interpretation of the writer into an element/attribute table, tag-flow analysis of the reader, finite-domain composition of emission and decoding tables',
+         'Decides for every input, at element/attribute level: each attribute and child the writer can emit is read for that element (605 pairs); for 20 element kinds the writer\'s emission table composed with the reader\'s decoding (constructor bodies and stores, evaluated as expression trees over finite abstract domains) is a fixed point W(R(W(m)))=W(m) for every realisable valuation (exhaustive); namespace-relative names are stripped/qualified by the same rule; sibling order is sorted or order-carrying; values reach the text only through the stdlib escaping functions.',
+         'Not decided: byte identity for arbitrary documentation text and positions, numeric re-formatting, nested type structure, indices (closure/destroy/length are carried through opaquely). Assumes types without transfer are not const-qualified and registered types have a get_type (reviewed). Trusted: CPython ast; tables KINDS/DERIVED in gilint/props/c07.py.',
+         '§4 C07'),
  'C10': ('AST rule checking of serialiser/parser token agreement + regex automaton equivalence for line breaks + folded vocabulary tables',
          'Decides only the structural clauses: serialiser and parser agree on every token (separators, first-"=" split, names only lower-cased, parentheses, @name:, Tag:), CRLF/CR/LF are normalised before splitting (language equivalence), vocabulary tables are mutually consistent, accepted by TAG_RE and equal to the ast constants written to the GIR.',
          'NOT decided (not applicable to static analysis): layout independence, multi-line continuation, exact recovery of descriptions, the write/parse round trip as a whole. Trusted: CPython ast and re._parser.',
